@@ -72,6 +72,11 @@ def run(chk):
             continue
         got = G.no_continue(p[1])
         if got != m.events:
+            # F39: Expect: 100-continue + chunked body + per-chunk delivery: the head is never delivered
+            if (not cfg.concat) and kind == "chunked" and any(e.startswith("X(") for e in p[1]) and got == m.events[1:]:
+                chk.violation("chunked request with Expect: 100-continue and a chunk handler: the request head is never delivered as VALID",
+                              {"case": c, "expected_events": m.events, "got_events": got}, True, "expect-continue-chunked-per-chunk-head-not-delivered")
+                continue
             nfail += 1
             if nfail <= 60:
                 sig, mincuts = classify(m, cuts, cfg, run_one)
